@@ -50,6 +50,11 @@ CHECKS = {
    text="ColumnType.Base/Elem/Conflicts/decimalDowncast/normalizeCommas and ColAuto.Infer (with ColEnum.parse, ColDateTime64.Infer, ColMap.Infer, ColInterval.Infer, inferGenerated) are executed on type strings whose bytes are symbolic: (i) arbitrary strings up to 3-5 bytes (pairs for the relation), (ii) strings assembled from the library's vocabulary of 19 base names with symbolic or nested parameters (all ordered pairs), (iii) well-formed templates with symbolic digits / enumerated leaf types. Assertions: no panic, Conflicts(a,a)==false, Conflicts(a,b)==Conflicts(b,a), and on a nil error the created column's own Type() does not conflict with the request in either direction.",
    ref="DESIGN.md §4 C19",
    note="bounds: free strings <=3 (quick)/5 bytes for pairs, <=4/6 for Infer; parameters <=1-2 symbolic bytes; bytes restricted to 7-bit ASCII (unicode tables not interpreted); time.LoadLocation is a nondeterministic stub; DecimalNN(S) spellings are checked for totality only (the statement's equivalences name Decimal(P,S)<->DecimalNN); the unbounded-depth symmetry argument (abstract induction step of DESIGN) is not built"),
+ "C18": dict(
+   level="model_checking",
+   text="Results.DecodeResult / Block.DecodeRawBlock are executed on blocks written by the harness' reference writer: 1..2 columns drawn from 13 server type strings (incl. parameter-only and spacing variants), symbolic names and cells, 0..1 rows, against 0..2 targets drawn from 14 column kinds with blank or symbolic names, at a symbolic revision. On a nil error the solver decides: counts equal (or the documented no-target/no-rows case), names equal after blank filling, every (server,target) pair is in the harness' explicit compatible-or-open set, each target holds exactly its own column's cells (re-encoded bytes == wire bytes), inferable targets adopted precision / enum definition. On an error: a block whose pairs are all must-bind is only rejected for a name mismatch, and every target is empty or holds its own column's cells. A second harness checks blank-name filling and enforcement across two blocks.",
+   ref="DESIGN.md §4 C18",
+   note="bounds: <=2 columns (quick: all 13x14 pairs for one column, 4x4 kinds for two columns), names 1 byte, rows<=1; type strings outside the table and DateTime('zone') (tzdata) are outside"),
 }
 
 NA = {
